@@ -346,6 +346,79 @@ fn check_malformed_search(rt: &tokio::runtime::Runtime, name: &str, flt: &Flt, m
     }
 }
 
+/// Long BulkSearch streams: the handler groups the request stream into batches of
+/// BULK_SEARCH_BATCH_SIZE = 128 (and the cold tier chunks a batch again); streams of <= 5 requests
+/// never reach either boundary. `n` requests, request i asking for the nearest neighbour of
+/// document (i % 6) + 1's own vector (the six signed axis vectors: pairwise cosine <= 0, so the
+/// semantic query cache — similarity threshold 0.90 on this server — can only match a repeat of
+/// the same query), optionally with one wrong-dimension request at `bad_at`:
+/// exactly n answers (or a final status), answer i names ITS document, the bad request gets a
+/// per-item failure and nothing else is disturbed.
+fn check_long_bulk_search(rt: &tokio::runtime::Runtime, n: usize, bad_at: Option<usize>, metric: &str, st: &mut Stats) {
+    let srv = build(&cfg(None, metric));
+    let docv = |j: usize| -> Vec<f32> {
+        let mut v = vec![0.0f32; 3];
+        v[j % 3] = if j < 3 { 1.0 } else { -1.0 };
+        v
+    };
+    for j in 0..6usize {
+        let _ = rt.block_on(call(&srv, &Rpc::Insert { t: 0, item: item(j as u64 + 1, &docv(j), "", 0) }));
+    }
+    let _ = rt.block_on(call(&srv, &Rpc::Flush { t: 0 }));
+    let before = census(&srv);
+    let qs: Vec<(Vec<f32>, u32)> = (0..n).map(|i| if Some(i) == bad_at { (vec![1.0, 0.0], 1) } else { (docv(i % 6), 1) }).collect();
+    st.requests += 1;
+    let label = format!("BulkSearch stream of {n} requests{}", bad_at.map(|b| format!(", wrong-dimension query at position {b}")).unwrap_or_default());
+    let ctx = |detail: String| json!({"engine":"srvmc","check":"C15","request":label,"metric":metric,"detail":detail});
+    let resp = match std::panic::catch_unwind(std::panic::AssertUnwindSafe(|| rt.block_on(async { tokio::time::timeout(std::time::Duration::from_secs(60), call(&srv, &Rpc::BulkSearch { t: 0, qs: qs.clone(), ns: "".into(), flt: Flt::None })).await }))) {
+        Err(_) => json!({"status": "Internal(panic contained by the tower layer)"}),
+        Ok(Err(_)) => {
+            st.viol.push(("C15|BulkSearch|no-answer-within-horizon".into(), ctx("stream did not complete within 60 s".into())));
+            return;
+        }
+        Ok(Ok(v)) => v,
+    };
+    let Some(items) = resp.get("stream").and_then(|x| x.as_array()) else {
+        st.outcomes.insert(format!("BulkSearch-long[{n}]:refused"));
+        if bad_at.is_none() {
+            st.viol.push(("C15|BulkSearch|valid-long-stream-refused".into(), ctx(format!("{resp}"))));
+        }
+        return;
+    };
+    if format!("{resp}").contains("HANG") {
+        st.viol.push(("C15|BulkSearch|stream-hang".into(), ctx(format!("{} answers then silence", items.len()))));
+        return;
+    }
+    let ended_with_status = items.last().map(|l| l.get("status").is_some()).unwrap_or(false);
+    st.outcomes.insert(format!("BulkSearch-long[{n},{bad_at:?}]:{}answers{}", items.len(), if ended_with_status { "+status" } else { "" }));
+    if items.len() != n && !ended_with_status {
+        st.viol.push(("C15|BulkSearch|stream-ends-cleanly-with-fewer-answers-than-requests".into(), ctx(format!("{n} requests sent, {} answers received and no status", items.len()))));
+        return;
+    }
+    for (i, it) in items.iter().enumerate() {
+        if it.get("status").is_some() {
+            continue;
+        }
+        if Some(i) == bad_at {
+            let served = it.get("results").and_then(|r| r.as_array()).map(|a| !a.is_empty()).unwrap_or(false);
+            if served && it.get("error").and_then(|e| e.as_bool()) != Some(true) {
+                st.viol.push(("C15|BulkSearch|invalid-item-served".into(), ctx(format!("answer {i} (wrong-dimension query): {it}"))));
+                return;
+            }
+            continue;
+        }
+        let want = (i % 6) as u64 + 1;
+        let top = it.get("results").and_then(|r| r.as_array()).and_then(|a| a.first()).and_then(|x| x["doc_id"].as_u64());
+        if top != Some(want) {
+            st.viol.push(("C15|BulkSearch|answer-does-not-belong-to-its-request".into(), ctx(format!("answer {i} of {n}: the request asked for the nearest neighbour of document {want}'s own vector, the answer is {it}"))));
+            return;
+        }
+    }
+    if census(&srv) != before {
+        st.viol.push(("C15|BulkSearch|read-changed-collection".into(), ctx("census differs after the stream".into())));
+    }
+}
+
 /// "Keeps serving later requests": every read request of the grid (plus large-k searches with a
 /// filter, which the server oversamples) is sent FIVE times in a row to a populated server, then a
 /// plain valid Search, Query and Insert must still be answered successfully — repeated
@@ -545,6 +618,17 @@ pub fn worker(wi: usize, wn: usize, tier: &str) {
                 continue;
             }
             check_malformed_search(&rt, name, flt, metric, &mut st);
+        }
+        // --- long BulkSearch streams across the handler's 128-request batching
+        let mut longs: Vec<(usize, Option<usize>)> = vec![(127, None), (128, None), (129, None), (257, None), (129, Some(0)), (129, Some(127)), (129, Some(128)), (300, Some(200))];
+        if tier == "thorough" {
+            longs.extend([(256, None), (385, None), (1000, None), (257, Some(255)), (257, Some(256))]);
+        }
+        for (li, (n, bad)) in longs.iter().enumerate() {
+            if (li + idx + 5) % wn != wi {
+                continue;
+            }
+            check_long_bulk_search(&rt, *n, *bad, metric, &mut st);
         }
         // --- bare malformed filters on BatchDelete
         for (mi, (name, flt)) in malformed_filters().iter().enumerate() {
